@@ -34,6 +34,16 @@ CHECKS = {
             "Enumerates all construction sites of TimeoutSettings in all bodies, requires each to be validated (constructor checks / non-zero constants / value parser proven to reject 0), discharges the settings-dependent panic sites, and (thorough) pins with compile_fail,E0451 that no other construction path exists outside the crate. The derive(Deserialize) path is a recorded known finding.",
             TB + "OS behaviour for extreme durations is not decided.", "DESIGN 4 C18"),
     # id: (technique, level text, level note, design_ref)
+    "C02": ("typed-HIR wire-trace extraction (ordered reads with resolved width / signedness / byte order / decoder, key and index lookups, conversions, guards, destination fields; locals canonicalised) compared row by row with reviewed spec tables", "Every Valve parser (A2S_INFO Source and obsolete GoldSrc, A2S_PLAYER, A2S_RULES, split-packet header, packet header, per-game projections) is reduced to its wire schedule and compared with a table reviewed against the Valve Server Queries specification; any change of order, width, endianness, mask, condition, skip or destination field is reported with both rows. Three defects found this way were repaired (GoldSrc header byte, GoldSrc NULL byte, per-fragment size/crc).", TB + "Equality of decoded values for all server states (UTF-8, bzip2, float bits) needs execution and is not decided. The tables are the oracle; rows I could not confirm from documentation are regression locks.", "DESIGN 4 C02, 3 E4/E5"),
+    "C03": ("typed-HIR wire-trace extraction (ordered reads with resolved width / signedness / byte order / decoder, key and index lookups, conversions, guards, destination fields; locals canonicalised) compared row by row with reviewed spec tables + call-sequence rows for the auto-detect order", "Java JSON pointers, Bedrock pong layout and ';' index table, legacy 1.6/1.4/b1.8 kick packets, fixed labels, and the Java -> Bedrock -> legacy (1.6, 1.4, b1.8) try order are tabled and compared.", TB + "Exactness of decoded values (serde_json, UTF-16) is not decided.", "DESIGN 4 C03"),
+    "C04": ("typed-HIR wire-trace extraction (ordered reads with resolved width / signedness / byte order / decoder, key and index lookups, conversions, guards, destination fields; locals canonicalised) compared row by row with reviewed spec tables", "GameSpy 1/2/3 key tables (typed fields taken with remove, fallbacks, per-player/team keys and columns), GS2 table schedule, GS3 packet header and section parsing are tabled and compared.", TB + "Values for all server states and multi-part merges are not decided (C08 covers arrival order).", "DESIGN 4 C04"),
+    "C05": ("typed-HIR wire-trace extraction (ordered reads with resolved width / signedness / byte order / decoder, key and index lookups, conversions, guards, destination fields; locals canonicalised) compared row by row with reviewed spec tables", "Quake 1/2/3 response prefixes, variable key table with fallbacks, per-version player line field order, quote stripping and the player-loop guard are tabled and compared (the constant-false guard defect was repaired).", TB + "Exact values are not decided.", "DESIGN 4 C05"),
+    "C06": ("typed-HIR wire-trace extraction (ordered reads with resolved width / signedness / byte order / decoder, key and index lookups, conversions, guards, destination fields; locals canonicalised) compared row by row with reviewed spec tables", "Unreal 2 response header, server-info / rules / players schedules, bot-iff-ping-0 branch, and the string decoder body (length byte, UCS-2 flag, Latin-1 range excluding the length byte, colour stripping) are tabled and compared.", TB + "Colour-strip semantics on all strings are not decided.", "DESIGN 4 C06"),
+    "C07": ("typed-HIR wire-trace extraction (ordered reads with resolved width / signedness / byte order / decoder, key and index lookups, conversions, guards, destination fields; locals canonicalised) compared row by row with reviewed spec tables", "FFOW, Savage 2, JC2M, Mindustry schedules, The Ship and Battalion 1944 projections/overrides and the Eco Root -> Response map are tabled and compared.", TB + "Values and HTTP transport are not decided.", "DESIGN 4 C07"),
+    "C08": ("effect/ordering analysis of every reassembly loop over MIR: completion-mode classification (count / silence / single-datagram flag), ordered-fold detection through callees with result-flow, sort-coverage of all fragment constructions", "Necessary conditions for order independence decided structurally for all five reassembly loops; the Valve first-fragment bypass was repaired; GameSpy 1/3 flag-driven completion and Unreal 2 arrival-ordered lists are recorded known findings.", TB + "That permutations actually yield equal values needs execution.", "DESIGN 4 C08, 3 E8"),
+    "C09": ("typed-HIR wire-trace extraction (ordered reads with resolved width / signedness / byte order / decoder, key and index lookups, conversions, guards, destination fields; locals canonicalised) compared row by row with reviewed spec tables for every request builder/sender + who-may-call on Socket::send + address/port provenance over MIR at all public (address, port) entry points", "All request literals, framings, field byte orders and challenge placements are tabled; send is only reachable from tabled functions; each of the ~100 public entry points builds SocketAddr::new(*address, port.unwrap_or(K)) or forwards unchanged; sockets use the stored address. The little-endian Java port was repaired.", TB + "Bytes on the wire at run time and all 2^32 challenge values are not enumerated; the move-only path makes the echo value-independent.", "DESIGN 4 C09"),
+    "C14": ("definition-table cross-check: GAMES rows extracted from the typed HIR of the static, joined with the dispatcher's per-protocol call arms and each game's wrapper (default port, protocol function, engine, gather settings) with an observational-equality rule for engines", "All 96 table rows are joined with the generic dispatcher and the dedicated modules; mismatching ports / protocol functions / engines / gather settings are reported per game. Base Defense was repaired; The Forest, Rising World, Eco and Minecraft-auto-detect mismatches are recorded known findings; Arma Reforger's differing but unobservable engine id is correctly not reported.", TB + "Equal responses for arbitrary server behaviour beyond equality of these parameters are not decided.", "DESIGN 4 C14, 3 E7"),
+    "C16": ("typed-HIR wire-trace extraction (ordered reads with resolved width / signedness / byte order / decoder, key and index lookups, conversions, guards, destination fields; locals canonicalised) compared row by row with reviewed spec tables for the filter key table, group prefix, filter string, request layout, reply schedule and paging loop", "insert/insert_nand/insert_nor group wiring, the 18 filter keys, the \\\\nand\\\\N / \\\\nor\\\\N prefix, the request layout, the big-endian reply schedule and the paging loop (seed, exits, terminator pop) are tabled and compared; the swapped groups and the malformed prefix were repaired.", TB + "Denotation of all insertion sequences (map iteration order) is not decided.", "DESIGN 4 C16"),
     "C10": ("call-graph coverage (who-may-call), argument provenance and loop-shape rules over resolved MIR",
             "Decides the structural necessary conditions of the retry contract: every send/receive site is inside a unit handed to "
             "retry_on_timeout on all call chains, the count comes from the caller's TimeoutSettings, the helper loops at most r+1 times "
